@@ -133,9 +133,10 @@ Section SchedProofs.
     rewrite (map_ext _ (fun w => concat (map (fun i => g (slice rows (nth i ms dummy_morsel))) w)))
       by (intro w; apply worker_stateless; auto).
     eapply perm_trans; [apply (schedule_perm_l (fun i => g (slice rows (nth i ms dummy_morsel))) (length ms) sch Hv)|].
-    Show.
-    rewrite <- Hcov at 2. rewrite (stateless_concat ks g H), map_map.
-    rewrite <- (map_nth_seq_m ms) at 3. rewrite map_map. reflexivity.
+    rewrite <- (map_map (fun i => slice rows (nth i ms dummy_morsel)) g).
+    rewrite <- (map_map (fun i => nth i ms dummy_morsel) (slice rows)).
+    rewrite map_nth_seq_m.
+    rewrite <- (stateless_concat ks g H), Hcov. reflexivity.
   Qed.
 
   (** *** per-worker sort, then the k-way merge of the workers' runs *)
@@ -186,7 +187,8 @@ Section SchedProofs.
       { instantiate (1 := concat (map (fun w => concat (map (fun i => slice rows (nth i ms dummy_morsel)) w)) sch)).
         clear. induction sch as [|w t IH]; cbn; auto. apply Permutation_app; auto. apply isort_perm. }
       eapply perm_trans; [apply (schedule_perm_l (fun i => slice rows (nth i ms dummy_morsel)) (length ms) sch Hv)|].
-      rewrite <- Hcov at 2. rewrite <- (map_nth_seq_m ms) at 2. rewrite map_map. reflexivity. }
+      rewrite <- (map_map (fun i => nth i ms dummy_morsel) (slice rows)).
+      rewrite map_nth_seq_m, Hcov. reflexivity. }
     assert (HPp : Forall P (concat parts)) by (eapply Permutation_Forall; [apply Permutation_sym; exact Hperm|exact HP]).
     assert (Hs : Forall (fun r => sortedb cmp r = true) parts).
     { apply Forall_forall. intros r Hr. unfold parts, parallel_run in Hr.
